@@ -11,6 +11,7 @@ package main
 import (
 	"fmt"
 	"go/token"
+	"go/types"
 
 	"golang.org/x/tools/go/ssa"
 )
@@ -75,7 +76,7 @@ func findCopyLoops(fn *ssa.Function) []copyLoop {
 				return
 			}
 			sl, ok := invokeArg(w.Common(), 0).(*ssa.Slice)
-			if !ok || sl.High != ssa.Value(n) || resolveCell(sl.X) != resolveCell(buf) {
+			if !ok || sl.High != ssa.Value(n) || (resolveCell(sl.X) != resolveCell(buf) && resolveCell(sl.X) != wholeArrayOf(buf)) {
 				return
 			}
 			if nil != sl.Low {
@@ -180,7 +181,8 @@ func findCopyLoops(fn *ssa.Function) []copyLoop {
 			switch {
 			case nil != dc.Y && isNilConst(dc.Y) && (dc.X == ssa.Value(rerr) || (nil != werr && dc.X == ssa.Value(werr))):
 				exits = append(exits, exitEdge{ifi, nonEq})
-			case nil != dc.Y && dc.X == ssa.Value(rerr) && "EOF" == globalLoadName(dc.Y):
+			case nil != dc.Y && dc.X == ssa.Value(rerr) && "EOF" == globalLoadName(dc.Y),
+				nil != dc.Y && dc.Y == ssa.Value(rerr) && "EOF" == globalLoadName(dc.X):
 				exits = append(exits, exitEdge{ifi, 1 - nonEq})
 			case nil != dc.Y && nil != nw && ((dc.X == ssa.Value(nw) && dc.Y == ssa.Value(n)) || (dc.X == ssa.Value(n) && dc.Y == ssa.Value(nw))):
 				exits = append(exits, exitEdge{ifi, nonEq})
@@ -201,6 +203,16 @@ func findCopyLoops(fn *ssa.Function) []copyLoop {
 				if edgeDominates(e.ifi, e.succ, j) {
 					return
 				}
+			}
+			/* Several failure edges which meet before one return (the
+			copy was a function of its own, folded in): no way here
+			avoids all of them. */
+			cut := map[Edge]bool{}
+			for _, e := range exits {
+				cut[Edge{e.ifi.Block().Index, e.ifi.Block().Succs[e.succ].Index}] = true
+			}
+			if 0 != len(cut) && nil == (reachQ{From: locOf(rd), NoEdges: cut, Target: func(k ssa.Instruction) bool { return k == j }}).run() {
+				return
 			}
 			/* Giving up with io.ErrShortWrite (or the like) below a test
 			of what the write took is a failure too. */
@@ -229,4 +241,16 @@ func describeInstr(i ssa.Instruction) string {
 		return "the end of the copy"
 	}
 	return "the next Read"
+}
+
+// wholeArrayOf: v is a[:] of a pointer to an array: that pointer.
+func wholeArrayOf(v ssa.Value) ssa.Value {
+	sl, ok := resolveCell(v).(*ssa.Slice)
+	if !ok || nil != sl.Low || nil != sl.High || nil != sl.Max {
+		return nil
+	}
+	if _, isP := sl.X.Type().Underlying().(*types.Pointer); !isP {
+		return nil
+	}
+	return resolveCell(sl.X)
 }
